@@ -219,8 +219,15 @@ func (m *monitor) check(stage, class string, f *fileCase, ids []ident, info map[
 	r.Tab("file_held_in", kind)
 	list := make([]age.Identity, len(ids))
 	allTyped := !f.noTyped
+	var log *recLog
+	if rec, _ := info["record"].(bool); rec {
+		log = &recLog{}
+	}
 	for k, i := range ids {
 		list[k] = i.id
+		if log != nil {
+			list[k] = &recIdent{inner: i.id, idx: k, log: log}
+		}
 		if !i.typed() {
 			allTyped = false
 		}
@@ -286,6 +293,9 @@ func (m *monitor) check(stage, class string, f *fileCase, ids []ident, info map[
 			r.Tab("error_of_lists_with_ssh_identities(not judged)", "other error")
 		}
 		r.SampleN(stage+"-ssh", 1, map[string]any{"stage": stage, "file": f.desc, "identities": descsOf(ids), "error": err.Error(), "oracle": "nil reader, non-nil error"})
+		if log != nil {
+			m.judgeLog(stage, class, caseName, ids, log, replay)
+		}
 		return
 	}
 
@@ -306,6 +316,9 @@ func (m *monitor) check(stage, class string, f *fileCase, ids []ident, info map[
 				fmt.Sprintf("%s: Errors[%d] = %T %q is not ErrIncorrectIdentity (errors.Is)", caseName, k, e, fmt.Sprint(e)), replay())
 			return
 		}
+	}
+	if log != nil {
+		m.judgeLog(stage, class, caseName, ids, log, replay)
 	}
 	r.Count("typed_error_checked", 1)
 	r.Count("causes_checked", int64(len(ids)))
